@@ -1164,7 +1164,11 @@ def statement_patterns(repo, rep, rule="R01.8"):
         isinstance(x, ast.Compare) and "';'" in src(x) for x in ast.walk(lp))]
     ent = [lp for lp in loops if lp not in scan]
     if len(scan) != 1 or len(ent) != 1:
-        raise AnalysisError("split_parts: loops not understood")
+        rep.check(False, rule, sp.qualname, "the part splitter is one scan "
+                  "for entities and one scan for separators",
+                  construct="split-parts-steps", where=L.where(sp),
+                  detail="%d loops" % len(loops))
+        return
     # entity scan: starts at 0
     starts = [a for a in sp.node.body if isinstance(a, ast.Assign)
               and a.lineno < ent[0].lineno
